@@ -9,7 +9,7 @@ pub fn audit<S: USet>(e: &mut Eng<S>, i: usize, deep: bool) {
     e.op_obs(i);
     e.op_iter(i);
     let n = e.slots[i].as_ref().unwrap().len();
-    let kinds = ["min", "max", "last", "count", "hint"];
+    let kinds = ["min", "max", "last", "count", "hint", "nth", "fold", "skip", "step", "find", "byref"];
     let positions: Vec<usize> = if n <= 12 && deep {
         (0..=n).collect()
     } else {
